@@ -297,6 +297,35 @@ def generate(rng, tier):
     now_year = datetime.datetime.utcnow().year
     cases = []
 
+    # -- the same date patterns configured for both languages through the public API: both then read every spelling
+    P5 = ["{MONTH:month} {NUMBER:day}, {NUMBER:year}", "{MONTH:month} {NUMBER:day} {NUMBER:year}",
+          "{NUMBER:day}/{NUMBER:month}/{NUMBER:year}", "{NUMBER:day} {MONTH:month} {NUMBER:year}", "{NUMBER:day} {MONTH:month}"]
+    for first, second in (("en", "tr"), ("tr", "en")):
+        pre = [{"op": "set_date_rule", "lang": first, "patterns": P5}, {"op": "set_date_rule", "lang": second, "patterns": P5}]
+        texts = {"en": "12 january 2021\njanuary 12, 2021\njanuary 12 2021\n12/1/2021\n12 january 2021 + 3 days\n5 march 1999",
+                 "tr": "12 ocak 2021\nocak 12, 2021\nocak 12 2021\n12/1/2021\n12 ocak 2021 + 3 gün\n5 mart 1999"}
+        cases.append({"ops": pre + [{"op": "exec", "lang": l, "text": texts[l]} for l in LANGS],
+                      "meta": {"kind": "date-rules-set-for-both", "words": True}})
+        P3 = P5[2:]
+        pre = [{"op": "set_date_rule", "lang": first, "patterns": P3}, {"op": "set_date_rule", "lang": second, "patterns": P3}]
+        texts = {"en": "12 january 2021\n12/1/2021\n12 january", "tr": "12 ocak 2021\n12/1/2021\n12 ocak"}
+        cases.append({"ops": pre + [{"op": "exec", "lang": l, "text": texts[l]} for l in LANGS],
+                      "meta": {"kind": "date-rules-set-for-both", "words": True}})
+    # -- several duration-valued variables written side by side (all operands are present at once, unlike literal
+    #    durations, which appear one rule pass at a time): the sum has every operand in both languages
+    for k in (2, 3, 4, 5, 6):
+        names = {"en": ["travel", "meeting", "pause", "lunch", "walk", "nap"][:k], "tr": ["yol", "toplantı", "mola", "yemek", "yürüyüş", "uyku"][:k]}
+        vals = [("1 day", "1 gün"), ("2 hours", "2 saat"), ("3 minutes", "3 dakika"), ("4 seconds", "4 saniye"), ("1 week", "1 hafta"),
+                ("5 hours", "5 saat")][:k]
+        texts = {}
+        for li, l in enumerate(LANGS):
+            ls = ["%s = %s" % (n, v[0 if l == "en" else 1]) for n, v in zip(names[l], vals)]
+            ls.append(" ".join(names[l]))
+            ls.append("x = " + " ".join(names[l]))
+            ls.append("12 january 2021 + x" if l == "en" else "12 ocak 2021 + x")
+            texts[l] = "\n".join(ls)
+        cases.append({"ops": [{"op": "exec", "lang": l, "text": texts[l]} for l in LANGS],
+                      "meta": {"kind": "duration-variables-side-by-side", "words": True}})
     # -- every configured spelling once: operator words, duration / day keywords, month names
     for op in SHARED_OPS:
         for lang in LANGS:
@@ -470,9 +499,11 @@ def duration_text(lang, secs):
     return " ".join(out)
 
 
-def _obs_lines(rec, i):
+def _obs_lines(rec, i, c=None):
     if rec is None or rec.get("hang") or rec.get("crash"):
         return None
+    if c is not None:
+        i = [k for k, o in enumerate(c["ops"]) if o["op"] == "exec"][i]        # configuration operations may come first
     obs = rec["obs"][i]
     if "panic" in obs:
         return None
@@ -480,15 +511,15 @@ def _obs_lines(rec, i):
 
 
 def nontrivial(c, rec):
-    lines = _obs_lines(rec, 0)
+    lines = _obs_lines(rec, 0, c)
     if not lines or lines[-1] is None:
         return False
     return line_value(lines[-1])[0] == "item"
 
 
 def spec_check(c, rec, header):
-    langs = [o["lang"] for o in c["ops"]]
-    le, lt = _obs_lines(rec, 0), _obs_lines(rec, 1)
+    langs = [o["lang"] for o in c["ops"] if o["op"] == "exec"]
+    le, lt = _obs_lines(rec, 0, c), _obs_lines(rec, 1, c)
     if le is None or lt is None:
         return "evaluation panicked or hung (%s)" % ("en" if le is None else "tr")
     if len(le) != len(lt):
